@@ -13,48 +13,56 @@ EXTRACT_TARGETS = ['Extract/Ex_exttraparea.vo']
 RUNNER = 'exttraparea'
 LEVEL = 'proof'
 MANIFEST = {
-    'text': "Theorems (Coq, over Q/Z, for ALL (grad_start, grad_end, area) and all systems, on a Gallina model that follows "
-            "make_extended_trapezoid_area.py statement by statement incl. the checks of make_extended_trapezoid it runs into): "
-            "whenever the model returns a gradient its first/last amplitudes are grad_start/grad_end and the times start at 0, all "
-            "corner times are integer multiples of the raster and strictly increasing, the enclosed area EQUALS the requested area "
-            "(the analytic plateau amplitude solves the area equation), every amplitude/slope is within the system limits with the "
-            "code's slack and the plateau within 99% (+1e-8); `find_solution d = None` implies that NO two-ramp gradient of "
-            "duration d with raster corner times satisfies the area equation within the limits the code enforces; the returned "
-            "duration is the smallest one with a two-ramp solution when it comes from the linear-search phase (unconditional), "
-            "its predecessor never has a solution (unconditional), and it is the smallest overall in the binary-search phase "
-            "under the monotonicity hypothesis the code's own comment assumes. Safety factors (0.99), tolerances (1e-8), eps and "
-            "the shape of every transcribed expression are re-read from the source on every run. On the implementation every "
-            "generated case (random systems, rasters 4/5/10/20 us, both signs, limit / equal / opposite / zero ends, areas from 0 "
-            "to many times the one-ramp area, dead-zone neighbourhoods) is checked with exact Fractions: end points, raster, area "
-            "to 1e-8, limits, and a brute-force search of ALL shorter two-ramp gradients; the extracted model is compared on the "
-            "returned duration, validity class, selection cost, and on `_find_solution` (captured closure) for the probed and "
-            "random durations.",
+    'text': "Theorems (Coq, over Q/Z, for ALL (grad_start, grad_end, area) and all systems, on a Gallina model that follows the "
+            "repaired make_extended_trapezoid_area.py statement by statement incl. the rescan after the binary search and the "
+            "checks of make_extended_trapezoid it runs into): whenever the model returns a gradient its first/last amplitudes are "
+            "grad_start/grad_end and the times start at 0, all corner times are integer multiples of the raster and strictly "
+            "increasing, the enclosed area EQUALS the requested area (the analytic plateau amplitude solves the area equation), "
+            "every amplitude/slope is within the system limits with the code's slack and the plateau within 99% (+1e-8); "
+            "`find_solution d = None` implies that NO two-ramp gradient of duration d with raster corner times satisfies the "
+            "area equation within the limits the code enforces; UNCONDITIONALLY (both search phases, end points within 99% of "
+            "max_grad) the returned duration is the least duration >= min_duration for which _find_solution succeeds (proved via "
+            "the area bound |area| <= d*raster*(max_grad+1e-8) behind `shortest_conceivable`), hence no two-ramp gradient within "
+            "99% of the limits (nor within the code's +1e-8 limits from the lower search bound upwards) has fewer raster steps; "
+            "the algorithm BEFORE repair 7df2246 (model function eta_old) is refuted by a vm_compute witness (18 steps returned, "
+            "8+8 exists). Safety factors (0.99), tolerances (1e-8), eps and the shape of every transcribed expression are re-read "
+            "from the source on every run. On the implementation every generated case (random systems, rasters 2.5/4/5/6.4/10/"
+            "12.5/20 us, both signs, limit / equal / opposite / zero ends, areas from 0 to many times the one-ramp area, dead-zone "
+            "neighbourhoods, a directed family of inputs on which doubling+bisection over the two-ramp feasibility predicate is "
+            "fooled, one-raster-step ramps) is checked with exact Fractions: end points, raster, area to 1e-8, limits, and a "
+            "brute-force search of ALL shorter two-ramp gradients; the extracted model is compared on the returned duration, "
+            "validity class, selection cost, and on `_find_solution` (captured closure) for the probed and random durations.",
     'note': "Trusted: Coq kernel; translator patterns for make_extended_trapezoid_area.py / make_extended_trapezoid.py; extraction "
             "(ExtrOcamlBasic) + driver; binary64/NumPy arithmetic is outside the model (decisions that differ only because a value "
             "sits within 1e-9 of a threshold or a rounding tie are counted as benign divergences when the implementation's own "
-            "output satisfies the oracle). Minimality in the binary-search region is a theorem only under the stated monotonicity "
-            "hypothesis; the brute-force oracle checks it unconditionally on every generated case. Termination of the doubling "
-            "loop is not proved (explicit fuel, OutOfFuel excluded by the theorems).",
-    'technique': 'Rocq/Coq proof over a Gallina model (field/lra for the area equation, induction over the searches) + '
-                 'extraction-based correspondence + exhaustive exact-rational minimality oracle',
+            "output satisfies the oracle and the divergence is explained by a per-duration difference). Termination of the "
+            "doubling loop is not proved (explicit fuel; OutOfFuel is excluded by the form `eta = OK o -> ...` of the theorems). "
+            "The minimality theorem needs |grad_start|, |grad_end| <= 0.99 max_grad + 1e-8 (the property's domain) for the "
+            "area bound of the rescan.",
+    'technique': 'Rocq/Coq proof over a Gallina model (field/lra for the area equation and the area bound, induction over the '
+                 'searches) + extraction-based correspondence + exhaustive exact-rational minimality oracle + directed generation',
 }
 BUDGET = {'quick': 75, 'thorough': 1500}
 MISMATCH_BUDGET = 0.0
 ESCALATE_BUDGET = 150     # s, thorough-size correspondence after an edit of the transcribed source
 SEARCH_BUDGET = 150
 RULE = ('systems: max_grad = 100*k Hz/m in [1e5, 3e6], max_slew chosen so that ramp-to-limit takes 2.5..60 rasters, raster in '
-        '{4,5,10,20} us; ends drawn from {0, +-99% limit, random, equal, opposite, tiny}; areas from {0, tiny, fraction of the '
-        'one-ramp area, area of the direct ramp, area of a rastered max-slew triangle/trapezoid +- small relative offsets (dead-zone '
-        'neighbourhood), up to 25x (quick) / 150x (thorough) the one-ramp area}, both signs; all numbers are short decimals handed '
-        'to the implementation as the nearest double and to the model exactly. A boundary stream (one end between 99% and 100.5% of '
-        'max_grad) is correspondence-only. Oracle = exact Fractions on the returned event. distinct = distinct argument tuples; '
-        'non-trivial = returned duration beyond the lower search bound (a real search happened)')
+        '{2.5,4,5,6.4,10,12.5,20} us; ends drawn from {0, +-99% limit, random, equal, opposite, tiny}; areas from {0, tiny, fraction '
+        'of the one-ramp area, area of the direct ramp, area of a rastered max-slew triangle/trapezoid +- small relative offsets '
+        '(dead-zone neighbourhood), up to 7x (quick) / 150x (thorough) the one-ramp area}, both signs; families: `cross` (ends of '
+        'equal sign near the limit, waveform crossing zero, optimum above the linear range, slope within 1e-3 of the limit), '
+        '`fooled` (directed search with a binary64 two-ramp feasibility table for areas on which exhaustive-then-doubling+bisection '
+        'misses the least feasible duration), `onestep` (long ramp near the slew limit + one-raster-step ramp), thorough: '
+        'systematic scan of the cross family over every duration between the end of the linear range and five times it. All numbers '
+        'are short decimals handed to the implementation as the nearest double and to the model exactly. A boundary stream (one end '
+        'between 99% and 100.5% of max_grad) is correspondence-only. Oracle = exact Fractions on the returned event. distinct = '
+        'distinct argument tuples; non-trivial = returned duration beyond the lower search bound (a real search happened)')
 TRUSTED = ['binary64 arithmetic of NumPy/Python (products, ceil, round, comparisons with eps) is outside the model: sampled by '
            'correspondence; threshold/tie cases are classified as benign only if the implementation output passes the oracle']
 ASSUMPTIONS = ['generated cases keep every ceil() argument of the ramp-time computation at least 1e-9 away from an integer '
                '(or exactly 0), so the rastered ramp counts agree between binary64 and exact arithmetic',
-               'theorem eta_minimal_partial assumes Monotone_feasible_from (lin_max a): once a duration beyond the linear-search '
-               'range has a solution every longer one has (the assumption behind the binary search in the code)']
+               'theorem eta_minimal assumes |grad_start|, |grad_end| <= 0.99 max_grad + 1e-8 (the domain of the property) and '
+               'max_slew > 0; termination of the doubling loop is not proved (fuel)']
 
 FUEL_D, FUEL_B = 12, 200      # doubling fuel 12: up to 4096 x the ramp-to-zero duration (the generator stays far below)
 MAX_FIND_D = 6000            # longest duration handed to the model's find_solution
@@ -817,20 +825,22 @@ def run(ctx):
     n_cross = {'quick': 30, 'thorough': 1500}[ctx.tier]
     n_one = {'quick': 20, 'thorough': 800}[ctx.tier]
     n_bound = {'quick': 15, 'thorough': 500}[ctx.tier]
-    gen = [gen_case(rng, ctx.tier) for _ in range(n_cases)]
-    gen += [gen_cross(xrng, ctx.tier) for _ in range(n_cross)]
-    gen += [gen_onestep(orng, ctx.tier) for _ in range(n_one)]
     zrng = ctx.rng('fooled')
-    gen += [gen_fooled(zrng, ctx.tier) for _ in range({'quick': 20, 'thorough': 1500}[ctx.tier])]
-    gen += [gen_case(brng, ctx.tier, boundary=True) for _ in range(n_bound)]
+    n_fooled = {'quick': 20, 'thorough': 1500}[ctx.tier]
+    # cases are generated lazily, in a shuffled order of families (neither the time budget nor the cost of the directed
+    # generator may starve a family)
+    plan = [lambda: gen_case(rng, ctx.tier)] * n_cases + [lambda: gen_cross(xrng, ctx.tier)] * n_cross + \
+        [lambda: gen_onestep(orng, ctx.tier)] * n_one + [lambda: gen_fooled(zrng, ctx.tier)] * n_fooled + \
+        [lambda: gen_case(brng, ctx.tier, boundary=True)] * n_bound
     if ctx.tier == 'thorough':
-        gen += scan_cross(ctx.rng('scan'), 4)
-    ctx.rng('order').shuffle(gen)            # the time budget must not starve one family
-    cases = corpus(ctx.tier) + gen
-    for i, c in enumerate(cases):
+        plan += [(lambda c=c: c) for c in scan_cross(ctx.rng('scan'), 4)]
+    ctx.rng('order').shuffle(plan)
+    plan = [(lambda c=c: c) for c in corpus(ctx.tier)] + plan
+    for i, mk in enumerate(plan):
         if ctx.out_of_time():
             ctx.notes.append('time budget reached after %d cases' % i)
             break
+        c = mk()
         res, ok = process(ctx, c, frng, n_find=2)
         if i % 97 == 40 and res['cls'] == 'OK':
             ctx.sample({'case': c, 'tt': res['tt'], 'waveform': res['wave'], 'probed_durations': [d for d, _ in res['probes']][:30]})
